@@ -194,12 +194,15 @@ ADDED = {
  "C09": " Also: in reconstruct the size that decides `sole` is taken after every change of the map; the power guard sees the real power (C09-R5 = C04-R1/R5). The direction parameter of apply_conversion is found by behaviour (bool or enum).",
  "C12": " Also: the parser primitives consume exactly what they promise (C12-R7 = C06-R4); every slice of the text runs between positions the lexer reached (C12-R8 = C11-R1's index obligations for syntax::*); parse() hands the parser the very text it keeps for the spans (C12-R9).",
  "C13": " Also: unit maps never keep cancelled entries, so equal quantities have equal representations (C13-R6 = C02-R1).",
- "C14": " Also: one segment per build - no function on an asset's loading path commits, merges or opens a writer (C14-R6).",
- "C16": " Also: every kind of session serves a built index (C16-R8 = C15-R3/R4/R6); a constant's source id resolves through the id->index map built from the decoded list (C16-R9).",
+ "C14": " Also: one segment per build - no function on an asset's loading path commits, merges or opens a writer (C14-R6); a re-opened index is a complete index of this build's data (C14-R7 = C15-R3/R4/R7: marker never outlives the index, trust only behind version equality, the hash covers every asset).",
+ "C16": " Also: every kind of session serves a built index (C16-R8 = C15-R3/R4/R6); a constant's source id resolves through the id->index map built from the decoded list (C16-R9); every session that starts has loaded the sources (C16-R8).",
+ "C15": " Also: open_index decides from the marker as read from disk; the index is created only in a wiped or absent directory; every session loads the sources; the hash that is compared covers the version and every existing asset's name and content (C15-R7, effect summary of Config::hash_assets).",
+ "C17": " Also: the decoded source list keeps the positions its id map was built with (C17-R5 = C16-R9).",
+ "C18": " Also: any external call that receives a &mut vector or slice of descriptions is a write (sorting through DerefMut included).",
  "C05": " Also: an SI prefix symbol in front of an SI unit symbol keeps its SI meaning (C05-R8); a unit word met twice must carry the same prefix, found out before anything is changed (C05-R9, summary of Compound::update).",
  "C08": " Also: the scientific form is decided, whatever its code looks like, on whole parts of 1..5 digits with limits 0..3 (bounded form of C08-R6: the digit string is a sequence of symbolic characters, the fraction digits come from the symbolic generator).",
  "C11": " Also: subtractions on unsigned integers whose operands are never compared are reported (they underflow for small values); error spans are in the caller's text (C11-R4 = C12-R9).",
- "C19": " Also: the binary's on-disk session answers like an in-memory one (C19-R5 = C14-R2, C15-R6); the 12-digit rendering is the faithful one (C19-R6 = C08-R1..R7); the exponent of a displayed unit is printed digit by digit (C19-R7).",
+ "C19": " Also: the binary's on-disk session answers like an in-memory one (C19-R5 = C14-R2, C15-R6); the 12-digit rendering is the faithful one (C19-R6 = C08-R1..R7); the exponent of a displayed unit is printed digit by digit, most significant first (C19-R7); the text of a compound unit: numerator units joined by a dot, a slash, denominator units with negated powers, only a sole numerator unit pluralised (C19-R8, summary of compound::Display).",
 }
 ALIAS_NOTE = (" Functions, types and fields renamed or moved against the reference tree (ref/fn_reference.json) are recognised by "
               "signature / shape and call-graph position and analysed under the names the rules know (sa/aliases.py); a consistent "
